@@ -1,9 +1,10 @@
 (* C14Run.v — compares what the harness observed on a real object with a property
    (examples/space Bomb: "delay", int32, validator owned by the harness) with Property.v:
-   sequential operation sequences step by step, and concurrent histories through the
+   sequential operation sequences step by step, sequences that also register and unregister with
+   client-chosen user ids (PropertySubs.v) step by step, and concurrent histories through the
    linearizability checker of Lin.v instantiated at the register specification. *)
 From Coq Require Import NArith List Bool String.
-From QV Require Import Bytes Property Lin.
+From QV Require Import Bytes Property PropertySubs Lin.
 Import ListNotations.
 Local Open Scope N_scope.
 
@@ -51,6 +52,31 @@ Fixpoint sreplay (c : pcfg) (s : pstate) (l : list (pop * sobs)) (i : nat) : opt
 Definition scase_ok (c : pcfg) (t : scase) : bool :=
   match sreplay c pinit (sc_ops t) 0 with None => true | Some _ => false end.
 
+(* ---------- sequential, with the subscriber table ---------- *)
+Record robs := { ro_res : sres; ro_events : list (nat * N * N * string) (* connection, action, message id, payload *) }.
+Record rcase := { rc_ops : list (sop * robs) }.
+
+Fixpoint eqb_sevents (a : list sevent) (b : list (nat * N * N * string)) : bool :=
+  match a, b with
+  | [], [] => true
+  | (a1, ((c1, m1), d1)) :: a', (c2, a2, m2, h2) :: b' =>
+      Nat.eqb c1 c2 && (a1 =? a2) && (m1 =? m2) && eqb_bytes d1 (unhex h2) && eqb_sevents a' b'
+  | _, _ => false
+  end.
+(* per connection, in the order the frames arrived on it *)
+Definition sev_by_conn (ev : list sevent) : list sevent :=
+  flat_map (fun c => filter (fun e => Nat.eqb (fst (fst (snd e))) c) ev) [0; 1; 2; 3]%nat.
+
+Fixpoint rreplay (c : pcfg) (s : sstate) (l : list (sop * robs)) (i : nat) : option nat :=
+  match l with
+  | [] => None
+  | (o, ob) :: r =>
+      let '(s1, res, ev) := sstep c nonneg s o in
+      if res_ok res (ro_res ob) && eqb_sevents (sev_by_conn ev) (ro_events ob) then rreplay c s1 r (S i) else Some i
+  end.
+Definition rcase_ok (c : pcfg) (t : rcase) : bool :=
+  match rreplay c sinit (rc_ops t) 0 with None => true | Some _ => false end.
+
 (* ---------- concurrent ---------- *)
 Record ccase := {
   cc_init : list pop;                       (* run before the threads start: subscriptions, first value *)
@@ -84,10 +110,11 @@ Fixpoint bad_idx {A} (f : A -> bool) (l : list A) (i : nat) : list nat :=
   | x :: r => if f x then bad_idx f r (S i) else i :: bad_idx f r (S i)
   end.
 
-Definition mismatches (c : pcfg) (ss : list scase) (cs : list ccase) : list nat * list nat :=
-  (bad_idx (scase_ok c) ss 0, bad_idx (ccase_ok c) cs 0).
+Definition mismatches (c : pcfg) (ss : list scase) (cs : list ccase) (rs : list rcase) : list nat * list nat * list nat :=
+  (bad_idx (scase_ok c) ss 0, bad_idx (ccase_ok c) cs 0, bad_idx (rcase_ok c) rs 0).
 
 Definition mkcfg (b : bool) : pcfg := {| store_untyped := b |}.
+Definition ro (r : sres) (ev : list (nat * N * N * string)) : robs := {| ro_res := r; ro_events := ev |}.
 Definition so (r : sres) (ev : list (nat * N * string)) : sobs := {| so_res := r; so_events := ev |}.
 Definition orc (t : N) (o : pop) (inv : N) (ret : option (N * pres)) : orec pop pres :=
   {| o_tid := t; o_op := o; o_inv := inv; o_ret := ret |}.
